@@ -117,17 +117,23 @@ def parseHist {ι : Type} (pop : String → List Int → Option ι) (s : String)
   if s == "" then some [] else
   ((s.splitOn ";").mapM (parseTok pop)).bind (fillRets [])
 
+/-- verdict of the checker; `none` (reported as a parse/annotation error) when the input is not a
+complete, consistently annotated history — only for those is `false` proved to mean "not linearizable" -/
+def judge {σ ι : Type} [DecidableEq σ] [DecidableEq ι] (S : Spec σ ι Ret) (h : List (HEv ι Ret)) : Option Bool :=
+  if wellAnnotatedB [] h then some (linCheck S h) else none
+
 def linAnswer (obj h : String) : String :=
-  let ans (b : Option Bool) : String :=
+  let ans (b : Option (Option Bool)) : String :=
     match b with
-    | some true => "lin=1"
-    | some false => "lin=0"
+    | some (some true) => "lin=1"
+    | some (some false) => "lin=0"
+    | some none => "err=annotation"
     | none => "err=parse"
   match obj with
-  | "map" => ans ((parseHist parseMapOp h).map (linCheck mapSpec))
-  | "ctr" => ans ((parseHist parseCtrOp h).map (linCheck ctrSpec))
-  | "amap" => ans ((parseHist parseAMOp h).map (linCheck amSpec))
-  | "slice" => ans ((parseHist parseSlOp h).map (linCheck slSpec))
+  | "map" => ans ((parseHist parseMapOp h).map (judge mapSpec))
+  | "ctr" => ans ((parseHist parseCtrOp h).map (judge ctrSpec))
+  | "amap" => ans ((parseHist parseAMOp h).map (judge amSpec))
+  | "slice" => ans ((parseHist parseSlOp h).map (judge slSpec))
   | _ => "err=obj"
 
 /-! #### one line -/
